@@ -436,6 +436,30 @@ static void tuple_case(Rng &r) {
 	count("tuple_cases");
 }
 
+// unique_ptr<Base> owning an object of a derived class (an interface pointer owning its implementation): destruction goes through
+// the virtual destructor, so the members the derived class adds die too; the block goes back through free(ptr)
+struct PolyBase { Elem base_part; explicit PolyBase(int v) : base_part(v) {} virtual ~PolyBase() {} virtual int get() const { return base_part.get(); } };
+struct PolyDerived : PolyBase { Elem extra, extra2; explicit PolyDerived(int v) : PolyBase(v), extra(v + 1), extra2(v + 2) {} int get() const override { return base_part.get() + extra.get() + extra2.get(); } };
+static void polymorphic_owner_case(Rng &r) {
+	g_elems.owner = "unique_ptr<Base>";
+	AllocState as; as.owner = "unique_ptr<Base>";
+	{
+		TrackedAlloc al(&as);
+		int v = (int)r.below(1000);
+		auto mk = [&](int x) -> PolyBase * { void *m = al.allocate(sizeof(PolyDerived)); return new (m) PolyDerived(x); };
+		frg::unique_ptr<PolyBase, TrackedAlloc> a(al, mk(v));
+		if(a->get() != 3 * v + 3) fail17("poly", "unique_ptr<Base>: access through the base pointer");
+		a.reset(mk(v + 10));                                   // the old implementation object dies completely
+		frg::unique_ptr<PolyBase, TrackedAlloc> b(al, mk(v + 20));
+		a = std::move(b);
+		frg::unique_ptr<PolyBase, TrackedAlloc> c(std::move(a));
+		if(c->get() != 3 * (v + 20) + 3) fail17("poly", "unique_ptr<Base>: value after move");
+	}
+	expect_no_elems("after destroying unique_ptr<Base> owners of derived objects (members added by the derived class must be destroyed through the virtual destructor)");
+	expect_no_blocks(as, "after destroying unique_ptr<Base> owners");
+	count("polymorphic_owner_cases");
+}
+
 // allocation.hpp helpers: construct / construct_n pair allocate(sizeof(T) [* n]) with destruct / destruct_n (deallocate with the same size)
 static void alloc_helpers_case(Rng &r) {
 	g_elems.owner = "allocation-helpers";
@@ -595,7 +619,7 @@ int main(int argc, char **argv) {
 			if(!want_case(i)) { r.next(); continue; }
 			begin_case("tuple", i);
 			Rng rr(r.next());
-			guarded(g_prop.c_str(), [&] { tuple_case(rr); alloc_helpers_case(rr); });
+			guarded(g_prop.c_str(), [&] { tuple_case(rr); alloc_helpers_case(rr); polymorphic_owner_case(rr); });
 			note_distinct(mix(77, rr.s[1]));
 		}
 		begin_case("tuple", n);
